@@ -27,12 +27,17 @@ ValueKeys == {ValueKey(a) : a \in Actions}
 \* "missing": no action member; "unknown": an action nobody supports; "number": not a string
 ActionVals == Actions \cup {"missing", "unknown", "number"}
 
-Accept(s) == s.action \in Actions /\ ValueKey(s.action) \in s.keys
+\* how the names of the action member and of the value members are spelled: member names are case sensitive
+\* ("Action" is not the action member, "Document" is not the value member of replace)
+Spellings == {"exact", "capitalized", "upper"}
 
-Init == shape \in [action : ActionVals, keys : {k \in SUBSET ValueKeys : Cardinality(k) <= 2}]
+Accept(s) == s.aname = "exact" /\ s.kname = "exact" /\ s.action \in Actions /\ ValueKey(s.action) \in s.keys
+
+Init == shape \in {sh \in [action : ActionVals, keys : {k \in SUBSET ValueKeys : Cardinality(k) <= 2}, aname : Spellings, kname : Spellings] :
+                     sh.aname = "exact" \/ sh.kname = "exact"}
 Next == UNCHANGED shape
 
 \* every supported action is accepted with its own value member and with no other alone
 OwnKeyNecessary == \A a \in Actions : \A k \in ValueKeys :
-                      Accept([action |-> a, keys |-> {k}]) <=> (k = ValueKey(a))
+                      Accept([action |-> a, keys |-> {k}, aname |-> "exact", kname |-> "exact"]) <=> (k = ValueKey(a))
 =============================================================================
